@@ -342,6 +342,11 @@ def catalogue_c10(seed, tier, rng):
         H, W = kw.pop("shape", (H0, W0))
         if kind == "elev":
             d = elev(rs, dt, H, W)
+            if d.dtype.kind == "f" and H >= 4 and W >= 4 and kw.pop("nonfinite", True):
+                # NaN / +-inf cells: functions that "clean" such cells must do it on a copy
+                d[1, 2] = np.nan
+                d[H - 2, 1] = np.inf
+                d[2, W - 2] = -np.inf
         elif kind == "cats":
             d = cats(rs, dt, H, W)
         elif kind == "targets":
@@ -361,10 +366,13 @@ def catalogue_c10(seed, tier, rng):
     combos = [(dt, lay) for dt in ALL10 for lay in LAYOUTS]
     rng.shuffle(combos)
 
-    def some(n):
-        """n (dtype, layout) combos, rotating through the shuffled product."""
+    def some(n, native=True):
+        """n (dtype, layout) combos, rotating through the shuffled product - plus, always, the
+        'native' float dtypes in C layout: a cast that is a no-op for them is where aliasing hides."""
         out = combos[:n]
         combos[:] = combos[n:] + out
+        if native:
+            out = out + [c_ for c_ in (("f8", "C"), ("f4", "C")) if c_ not in out]
         return out
 
     per = 6 if tier == "quick" else 40
@@ -405,7 +413,7 @@ def catalogue_c10(seed, tier, rng):
         rr = [R("band", dt, lay), R("band", rng.choice(ALL10), rng.choice(LAYOUTS)), R("band", rng.choice(ALL10), "C")]
         c.add("multispectral", "true_color", rr, {}, identity="own")
     for op in ("proximity", "allocation", "direction"):
-        for dt, lay in some(max(2, per // 3)):
+        for dt, lay in some(max(2, per // 3), native=False):
             c.add("proximity", op, [R("targets", dt, lay)], {"max_distance": 6.0}, heavy=True)
     for dt, lay in some(per):
         c.add("zonal", "regions", [R("cats", dt, lay)], {"neighborhood": 4})
@@ -430,10 +438,10 @@ def catalogue_c10(seed, tier, rng):
             lay = "C"
         c.add("zonal", "zonal_apply", [R("cats", idt, "C"), R("elev", dt, lay)], {"func": "double", "nodata": 0},
               identity="inplace", private=True)
-    for dt, lay in some(max(2, per // 2)):
-        c.add("pathfinding", "a_star_search", [R("elev", dt, lay, res=False, cx=1.0, cy=1.0)],
+    for dt, lay in some(max(2, per // 2), native=False):
+        c.add("pathfinding", "a_star_search", [R("elev", dt, lay, res=False, cx=1.0, cy=1.0, nonfinite=False)],
               {"start": (0.0, 0.0), "goal": (5.0, 6.0)}, heavy=True)
-    for dt, lay in some(max(2, per // 2)):
+    for dt, lay in some(max(2, per // 2), native=False):
         c.add("polygonize", "polygonize", [R("cats", dt, lay, shape=(5, 6))], {"connectivity": 4}, identity="own", heavy=True)
     for op in ("local_cell_stats", "local_combine", "local_lowest_position", "local_highest_position"):
         for dt, lay in some(2):
@@ -451,8 +459,8 @@ def catalogue_c10(seed, tier, rng):
             c.add("generators", "perlin", [R("zeros", dt, lay, shape=(6, 8))], {"seed": 5}, identity="own", heavy=True)
     for dt, lay in (("f8", "C"), ("f4", "readonly"), ("f8", "strided")):
         c.add("generators", "generate_terrain", [R("zeros", dt, lay, shape=(6, 8))], {"seed": 10}, identity="own", heavy=True)
-    for dt, lay in some(2 if tier == "quick" else 8):
-        c.add("viewshed", "viewshed", [R("elev", dt, lay, shape=(5, 6), res=False, cx=1.0, cy=1.0)],
+    for dt, lay in some(2 if tier == "quick" else 8, native=False):
+        c.add("viewshed", "viewshed", [R("elev", dt, lay, shape=(5, 6), res=False, cx=1.0, cy=1.0, nonfinite=False)],
               {"x": 2.0, "y": 2.0, "observer_elev": 3}, identity="viewshed", heavy=True)
 
     # Dask rasters over caller-owned buffers (chunks are views of them)
@@ -463,11 +471,14 @@ def catalogue_c10(seed, tier, rng):
           ("binary", {"values": [40.0, 45.0]}, "same"),
           ("reclassify", {"bins": [40.0, 50.0, 60.0], "new_values": [1.0, 2.0, 3.0]}, "same"),
           ("equal_interval", {"k": 3}, "same"),
-          ("focal_stats", {"kernel": K, "stats_funcs": ["mean"]}, "own")]
+          ("focal_stats", {"kernel": K, "stats_funcs": ["mean"]}, "own"),
+          ("convolution_2d", {"kernel": np.ones((5, 5))}, "same"), ("focal_apply", {"kernel": np.ones((5, 3)), "func": "max"}, "same"),
+          ("hotspots", {"kernel": np.ones((5, 5))}, "hotspots")]
     for op, p, ident in dk:
-        for dt, _ in some(2 if tier == "quick" else 10):
+        for n_, (dt, _) in enumerate(some(2 if tier == "quick" else 10, native=False) + [("f4", "C"), ("f8", "C")]):
             rid = R("elev", dt, "C")
-            c.add("dask", op, [rid], p, backend="dask", chunks={rid: _chunks(rng, (H0, W0))}, identity=ident)
+            ch = _chunks(rng, (H0, W0)) if n_ % 2 == 0 else [[1] * H0, _chunks(rng, (H0, W0))[1]]
+            c.add("dask", op, [rid], p, backend="dask", chunks={rid: ch}, identity=ident)
     for op, nb in ms[:4] + [("true_color", 3)]:
         for dt, _ in some(2 if tier == "quick" else 6):
             rr = [R("band", dt, "C")] + [R("band", rng.choice(["f4", "f8", "u1", "u2"]), "C") for _ in range(nb - 1)]
